@@ -75,12 +75,20 @@ Print Assumptions C13_trace_recv_emitted.
    application or mieru itself started closing: close request / response, queued data, retransmissions) that the
    acceptor accepts never shows one sequence number with two contents - type, fragment marker or payload - on
    either endpoint; a data fragment and a close request sharing a number are rejected *)
-Theorem C13_trace_retx_same_across_close : forall pre post, accept_closed pre post = true ->
-  forall X g1 g2, In g1 (emitted X (pre ++ post)) -> In g2 (emitted X (pre ++ post)) ->
+Theorem C13_trace_retx_same_across_close : forall pre post l, late_final pre post = Some l ->
+  forall X g1 g2, In g1 (emitted X pre ++ l_chk (getL X l)) -> In g2 (emitted X pre ++ l_chk (getL X l)) ->
   is_seq X (g_ty g1) = true -> is_seq X (g_ty g2) = true -> g_seq g1 = g_seq g2 ->
   g_ty g1 = g_ty g2 /\ g_frag g1 = g_frag g2 /\ g_pay g1 = g_pay g2.
 Proof. exact accept_closed_retx_same. Qed.
 Print Assumptions C13_trace_retx_same_across_close.
+
+(* what is checked after Close (l_chk): every sequenced emission except closeSessionRequests - and of those each
+   endpoint's first one is checked too (late_step); the exempted ones are the stateless replies of the underlay for a
+   session that is no longer registered, whose sequence field echoes the peer's unAckSeq *)
+Theorem C13_trace_after_close_coverage : forall pre post l, late_final pre post = Some l ->
+  forall X g, In g (emitted X post) -> is_seq X (g_ty g) = true -> g_ty g <> ty_close_req -> In g (l_chk (getL X l)).
+Proof. exact late_covers. Qed.
+Print Assumptions C13_trace_after_close_coverage.
 
 (* in the transition system a control segment (the close session request, c_ty c = closeSessionRequest, like any
    LWrite) is numbered in the very step that queues it: its number is the length of the history, no segment
@@ -97,7 +105,8 @@ Print Assumptions C13_control_numbering.
 Example C13_closed_nonvacuous :
   accept_closed ex_pre [ES false (mkDg 6 1 0 4096 0 [7]%N); ES false (mkDg 4 2 0 0 0 []); ES true (mkDg 5 1 0 0 0 []); ES true (mkDg 4 2 0 0 0 [])] = true /\
   accept_closed ex_pre [ES false (mkDg 4 1 0 0 0 [])] = false /\
-  accept_closed ex_pre [ES false (mkDg 6 2 0 4096 0 [8]%N); ES false (mkDg 4 2 0 0 0 [])] = false.
+  accept_closed ex_pre [ES false (mkDg 6 2 0 4096 0 [8]%N); ES false (mkDg 4 2 0 0 0 [])] = false /\
+  accept_closed ex_pre [ES false (mkDg 4 2 0 0 0 []); ES false (mkDg 4 1 0 0 0 [])] = true.
 Proof. exact ex_closed. Qed.
 
 Example C13_trace_nonvacuous : accepts (ex_trace ++ [EF]) = true /\
